@@ -13,6 +13,8 @@ def CHOOSE(*args):
         return error.NOT_AVAILABLE
 
     index = args[0]
+    if isinstance(index, float):
+        index = int(index)  # a computed index (4/2) is a float; only an integer can address an argument
     if (index < 1 or index > 254):
         return error.VALUE
 
@@ -94,6 +96,8 @@ def INDEX(arr, row_num=DEFAULT, column_num=DEFAULT, area_num=DEFAULT):
     def pick(seq, position):
         # positions are 1-based: zero and negative ones lie outside the array
         # (a plain seq[position - 1] would wrap around to another element)
+        if isinstance(position, float):
+            position = int(position)  # a computed position (6/3) is a float
         if position < 1:
             raise IndexError
         if not isinstance(seq, list):
